@@ -39,6 +39,8 @@ macro_rules! dispatch {
             "C14" => $f(&props::c14::C14, $($arg),*),
             "C06" => $f(&props::c06::C06, $($arg),*),
             "C15" => $f(&props::c15::C15, $($arg),*),
+            "C08" => $f(&props::c08::C08, $($arg),*),
+            "C07" => $f(&props::c07::C07, $($arg),*),
             _ => {
                 eprintln!("unknown property {}", $id);
                 2
